@@ -1919,7 +1919,7 @@ parse_citation:
 				if (t->next->len > 1) {
 					printf("\\multicolumn{%lu}{", t->next->len);
 
-					if (scratch->table_cell_count < kMaxTableColumns) {
+					if (scratch->table_cell_count >= 0 && scratch->table_cell_count < kMaxTableColumns) {
 						switch (scratch->table_alignment[scratch->table_cell_count]) {
 							case 'l':
 							case 'L':
